@@ -22,7 +22,9 @@ theorem C01_normal (a : Acc) (tbl : Option Tbl) (v : Int) (bits : List Nat) (vtL
     (s : List Char) (c : Option (List Char)) (hb : IsBits bits)
     (h : encode a tbl v bits false vtLen fuel = .ok (s, c)) :
     decode a tbl v s bits.length false c = .ok bits := by
-  sorry
+  obtain ⟨he, hc⟩ := cn_encode_normal_ok hb h
+  obtain ⟨hw, hv, _⟩ := cn_encodeNat_spec a tbl _ _ _ _ he
+  rw [cn_decode_normal_ok a tbl v s _ c hw hc, hv, (C16_bits_roundtrip bits hb).2]
 
 /-- fast mode (an `.ok` result of `encode` already implies that no out-degree-3 vertex was met),
 including odd message lengths. -/
@@ -30,27 +32,43 @@ theorem C01_fast (a : Acc) (tbl : Option Tbl) (v : Int) (bits : List Nat) (vtLen
     (s : List Char) (c : Option (List Char)) (hb : IsBits bits)
     (h : encode a tbl v bits true vtLen fuel = .ok (s, c)) :
     decode a tbl v s bits.length true c = .ok bits := by
-  sorry
+  exact cf_C01_fast a tbl v bits vtLen fuel s c hb h
 
 /-- on a graph in which every vertex reachable from the start has an arc and can reach a branching
 vertex, `encode` returns (normal mode: any out-degrees; the fuel `L·|V| + 1` suffices). -/
 theorem C01_total_normal (a : Acc) (tbl : Option Tbl) (v : Int) (bits : List Nat) (vtLen : Nat)
     (hb : IsBits bits) (hg : a.GoodFrom v) :
     ∃ s c, encode a tbl v bits false vtLen (encodeFuel a bits) = .ok (s, c) := by
-  sorry
+  exact cn_encode_total_normal a tbl v bits vtLen hb hg
 
 /-- same in fast mode on graphs without out-degree 3. -/
 theorem C01_total_fast (a : Acc) (tbl : Option Tbl) (v : Int) (bits : List Nat) (vtLen : Nat)
     (hb : IsBits bits) (hg : a.GoodFrom v) (h3 : a.NoDeg3From v) :
     ∃ s c, encode a tbl v bits true vtLen (encodeFuel a bits) = .ok (s, c) := by
-  sorry
+  exact cf_C01_total_fast a tbl v bits vtLen hb hg h3
 
 /-- the empty and the all-zero message are encoded as the empty strand in normal mode and decoded
 back. -/
 theorem C01_zero (a : Acc) (tbl : Option Tbl) (v : Int) (n : Nat) :
     encode a tbl v (List.replicate n 0) false 0 1 = .ok ([], none) ∧
     decode a tbl v [] n false none = .ok (List.replicate n 0) := by
-  sorry
+  have hb : IsBits (List.replicate n 0) := by
+    intro b hb; rw [List.eq_of_mem_replicate hb]; omega
+  have hz : bitToNumberInt (List.replicate n 0) = 0 := by
+    unfold bitToNumberInt
+    induction n with
+    | zero => rfl
+    | succ n ih =>
+      rw [List.replicate_succ, List.foldl_cons]
+      exact ih (by intro b hb; rw [List.eq_of_mem_replicate hb]; omega)
+  constructor
+  · rw [cn_encode_normal_eq a tbl v _ 0 1 hb, hz]
+    rfl
+  · rw [cn_decode_normal_ok a tbl v [] n none rfl rfl]
+    show Except.ok (numberToBitInt 0 n) = _
+    unfold numberToBitInt
+    rw [digitsNat_zero_cv, fitBits_of_le _ _ (Nat.zero_le _)]
+    simp
 
 example : a = gcBalanced2 → decode gcBalanced2 none 1 "TCTCTCT".toList 8 false (some "TAAGC".toList)
     = .ok [0, 1, 0, 1, 0, 1, 0, 1] := by
